@@ -1,5 +1,9 @@
 // c17: block storage is a faithful key-value map (memstore, cidlink.Memory, fsstore).
-// Record: id, store (mem|cidmem|fs), config, ops, observation
+// Record: id, store (mem|cidmem|fs | Lmem|Lcidmem|Lfs), config, ops, observation
+//   L* = the fixed LARGE-BLOCK cases (1, 2, 4, 8 MiB -1/exact/+1): same operations, no listing, plus
+//        "R:" = the store is reopened (a new fsstore.Store on the same directory); their expected
+//        observations are computed by the driver from the map specification on native strings
+//        (sound by C17_refines / C17_refines_fs; multi-MiB Coq lists are not materialised)
 //   config: "-" for the in-memory stores; "<r12|r122|r133>,q<ab>" for fsstore, where a/b are the
 //           probed quirks of the tree under test (a=1: escapingFunc not applied; b=1: commit("") ok)
 //           the store spec may carry ":hex" = a CUSTOM escaping function (upper-case hex) instead of base32
@@ -21,8 +25,10 @@ import (
 	"fmt"
 	"io"
 	"os"
+	"runtime/pprof"
 	"strconv"
 	"strings"
+	"time"
 
 	"verifharness/lib"
 
@@ -177,6 +183,8 @@ func parseHandles(s string) []int {
 
 // runOps interprets the op tokens against be; listing (if non-nil) is called after every op.
 // Returns the ops actually run (ops refused by the sandbox guard are dropped) and the observation.
+var reopen func() backend // set by runCase for the stores that can be reopened
+
 func runOps(be backend, ops []string, guard func(key string) bool, listing func() string) ([]string, string) {
 	var bufs [][]byte
 	var streams []*stream
@@ -215,7 +223,7 @@ func runOps(be backend, ops []string, guard func(key string) bool, listing func(
 			if key != "" && guard != nil && !guard(key) {
 				continue
 			}
-		} else if f[0] != "n" && f[0] != "N" && f[0] != "m" && f[0] != "o" && f[0] != "w" {
+		} else if f[0] != "n" && f[0] != "N" && f[0] != "m" && f[0] != "o" && f[0] != "w" && f[0] != "R" {
 			key = lib.UnHex(f[1])
 			if guard != nil && !guard(key) {
 				continue
@@ -229,7 +237,12 @@ func runOps(be backend, ops []string, guard func(key string) bool, listing func(
 				bufs = append(bufs, []byte(lib.UnHex(f[1])))
 				tok = "-"
 			case "N":
-				bufs = append(bufs, []byte(lib.BlobSpec(f[1])))
+				bufs = append(bufs, lib.BlobSpecBytes(f[1]))
+				tok = "-"
+			case "R":
+				if reopen != nil {
+					be = reopen()
+				}
 				tok = "-"
 			case "m":
 				h, _ := strconv.Atoi(f[1])
@@ -269,7 +282,7 @@ func runOps(be backend, ops []string, guard func(key string) bool, listing func(
 					tok = putTok(err)
 				} else {
 					bufs = append(bufs, b)
-					tok = "b:" + lib.ContentTok(string(b))
+					tok = "b:" + lib.ContentTokBytes(b)
 				}
 			case "k":
 				b, err, sup := be.peek(key)
@@ -279,7 +292,7 @@ func runOps(be backend, ops []string, guard func(key string) bool, listing func(
 					tok = putTok(err)
 				} else {
 					bufs = append(bufs, b)
-					tok = "b:" + lib.ContentTok(string(b))
+					tok = "b:" + lib.ContentTokBytes(b)
 				}
 			case "r":
 				r, err, sup := be.getStream(key)
@@ -293,7 +306,7 @@ func runOps(be backend, ops []string, guard func(key string) bool, listing func(
 					if rerr != nil {
 						tok = "se:" + lib.StoreErrClass(rerr)
 					} else {
-						tok = "b:" + lib.ContentTok(string(b))
+						tok = "b:" + lib.ContentTokBytes(b)
 					}
 				}
 			case "h":
@@ -352,6 +365,10 @@ func runOps(be backend, ops []string, guard func(key string) bool, listing func(
 var quirks string
 
 func runCase(out *lib.Out, id, store, config string, ops []string) {
+	if os.Getenv("C17_TIMING") != "" {
+		t0 := time.Now()
+		defer func() { fmt.Fprintf(os.Stderr, "%s %s %.2fs\n", id, store, time.Since(t0).Seconds()) }()
+	}
 	switch store {
 	case "mem":
 		ran, obs := runOps(storageBackend{&memstore.Store{}}, ops, nil, nil)
@@ -359,6 +376,30 @@ func runCase(out *lib.Out, id, store, config string, ops []string) {
 	case "cidmem":
 		ran, obs := runOps(memoryBackend{&cidlink.Memory{}}, ops, func(k string) bool { _, ok := linkOf(k); return ok }, nil)
 		out.Case(id, store, "-", strings.Join(ran, " "), obs)
+	case "Lmem":
+		ran, obs := runOps(storageBackend{&memstore.Store{}}, ops, nil, nil)
+		out.Case(id, store, "-", strings.Join(ran, " "), obs)
+	case "Lcidmem":
+		ran, obs := runOps(memoryBackend{&cidlink.Memory{}}, ops, nil, nil)
+		out.Case(id, store, "-", strings.Join(ran, " "), obs)
+	case "Lfs":
+		shard := strings.Split(config, ",")[0]
+		parent, base := lib.NewSandbox("c17")
+		defer os.RemoveAll(parent)
+		st, err := lib.OpenFsStore(base, shard)
+		if err != nil {
+			panic(err)
+		}
+		reopen = func() backend {
+			st2, err := lib.OpenFsStore(base, shard)
+			if err != nil {
+				panic(err)
+			}
+			return storageBackend{st2}
+		}
+		defer func() { reopen = nil }()
+		ran, obs := runOps(storageBackend{st}, ops, nil, nil)
+		out.Case(id, store, shard+",q"+quirks, strings.Join(ran, " "), obs)
 	case "fs":
 		shard := strings.Split(config, ",")[0]
 		parent, base := lib.NewSandbox("c17")
@@ -895,7 +936,61 @@ func corpus(out *lib.Out) {
 	runCase(out, next(), "cidmem", "-", []string{"n:" + c, "g:" + v0, "p:" + v0 + ":0", "m:0:" + lib.Hex("XXXXXXX"), "g:" + v0, "g:" + v1, "g:" + raw, "g:" + oth, "h:" + v0, "k:" + v0, "r:" + v0, "v:" + v0 + ":0", "s:" + oth + ":0,0", "g:" + oth})
 }
 
+// largeCorpus: blocks around the sizes people use as caps (1, 2, 4 MiB; 8 MiB + 1 in the thorough tier),
+// each -1 / exact / +1, through Put, PutStream with several writes and PutVec, read back through
+// Get / GetStream / Peek / Has, on fsstore (default, and a custom sharding) — also after reopening
+// the store —, memstore and cidlink.Memory.
+func largeCorpus(out *lib.Out, tier string) {
+	const mib = 1 << 20
+	var sizes []int
+	for _, m := range []int{1, 2, 4} {
+		sizes = append(sizes, m*mib-1, m*mib, m*mib+1)
+	}
+	if tier == "thorough" {
+		sizes = append(sizes, 8*mib+1, 8*mib)
+	}
+	id := 0
+	next := func() string { id++; return fmt.Sprintf("L%d", id) }
+	for si, sz := range sizes {
+		sd := 11 + si
+		parts := []string{fmt.Sprintf("1000.%d", sd), fmt.Sprintf("65536.%d", sd+1), fmt.Sprintf("%d.%d", sz-66536, sd+2)}
+		whole := strings.Join(parts, "+")
+		news := []string{"N:" + parts[0], "N:" + parts[1], "N:" + parts[2], "N:" + whole} // handles 0,1,2 and 3 = the whole block
+		atCap := sz >= 4*mib-1 || sz == mib // the custom sharding and cidlink.Memory only around the 4 MiB cap (and 1 MiB exactly)
+		for _, cfg := range []string{"r12", "r133"} {
+			if cfg != "r12" && !atCap {
+				continue
+			}
+			k1, k2, k3 := lib.Hex(fmt.Sprintf("large-%d-put", sz)), lib.Hex(fmt.Sprintf("large-%d-stream", sz)), lib.Hex(fmt.Sprintf("large-%d-vec", sz))
+			ops := append(append([]string{}, news...),
+				"h:"+k1, "p:"+k1+":3", "h:"+k1, "g:"+k1, "r:"+k1, "k:"+k1,
+				"s:"+k2+":0,1,2", "g:"+k2, "r:"+k2,
+				"v:"+k3+":0,1,2", "g:"+k3, "k:"+k3, "h:"+k3,
+				"R:", "h:"+k1, "g:"+k1, "r:"+k2, "g:"+k3)
+			runCase(out, next(), "Lfs", cfg, ops)
+		}
+		{
+			k1, k2, k3 := lib.Hex(fmt.Sprintf("large-%d-put", sz)), lib.Hex(fmt.Sprintf("large-%d-stream", sz)), lib.Hex(fmt.Sprintf("large-%d-vec", sz))
+			ops := append(append([]string{}, news...),
+				"p:"+k1+":3", "h:"+k1, "g:"+k1, "r:"+k1, "k:"+k1,
+				"s:"+k2+":0,1,2", "g:"+k2, "v:"+k3+":0,1,2", "r:"+k3, "k:"+k3)
+			runCase(out, next(), "Lmem", "-", ops)
+		}
+		if atCap {
+			content := lib.BlobSpec(whole)
+			c1, c2 := lib.Hex(lib.RealCid(1, 0x55, 0x12, content)), lib.Hex(lib.RealCid(1, 0x71, 0x13, content))
+			ops := append(append([]string{}, news...), "g:"+c1, "p:"+c1+":3", "g:"+c1, "s:"+c2+":0,1,2", "g:"+c2)
+			runCase(out, next(), "Lcidmem", "-", ops)
+		}
+	}
+}
+
 func main() {
+	if pf := os.Getenv("C17_PROF"); pf != "" {
+		f, _ := os.Create(pf)
+		pprof.StartCPUProfile(f)
+		defer pprof.StopCPUProfile()
+	}
 	fl := lib.ParseFlags()
 	out := lib.OpenOut(fl.Out)
 	defer out.Close()
@@ -918,6 +1013,11 @@ func main() {
 		}
 	}
 	corpus(out)
+	if os.Getenv("C17_NOLARGE") == "" { // (switch for timing the large-block family on its own)
+		t0 := time.Now()
+		largeCorpus(out, fl.Tier)
+		fmt.Fprintf(os.Stderr, "c17: large-block cases took %.1fs\n", time.Since(t0).Seconds())
+	}
 	rng := lib.NewRng(fl.Seed)
 	stores := []string{"fs", "fs", "fs", "mem", "mem", "cidmem"}
 	shards := []string{"r12", "r122", "r133", "r12:hex", "r133:hex"}
